@@ -25,7 +25,7 @@ TypePartners == Partners \o << Txt(<<49, 47, 49, 47>> \o [i \in 1..20 |-> 57]), 
                                Txt(<<49, 101, 57, 57, 57>>) >>                        \* 1e999
 NT == Len(TypePartners)
 \* the information functions report the type without altering it: text that SPELLS a logical value or a number is text
-InfoPartners == Partners \o << Txt(TRUEcodes), Txt(<<102, 97, 108, 115, 101>>), Txt(<<49, 101, 51>>) >>     \* TRUE  false  1e3
+InfoPartners == Partners \o << Txt(TRUEcodes), Txt(<<102, 97, 108, 115, 101>>), Txt(<<49, 101, 51>>), Whole(1), Bool(FALSE) >>     \* TRUE  false  1e3  1  FALSE
 
 C(f, a) == [f |-> f, args |-> a]
 
